@@ -432,6 +432,11 @@ def _call_resize(flat, shape, newshp, off, mode, c, direction, var, dt, offset_n
         probs.append(('input_modified', 'input array changed by the call'))
     if out is not None and res is not out:
         probs.append(('result_is_not_out', 'returned object is not the given out'))
+    if out is None and isinstance(res, np.ndarray) and isinstance(a, np.ndarray) and \
+            res.size and np.shares_memory(res, a):
+        # "copies the overlapping block": a result that is a view of the input would change with it
+        probs.append(('result_shares_memory_with_input',
+                      'no out given: the returned array shares memory with the input array'))
     if backing is not None:
         outside = backing[~mask]
         good = np.isnan(outside) if backing.dtype.kind in 'fc' else outside == 777
